@@ -2,7 +2,10 @@
 
 Model: Model/Assemble.v (stream_step, queue_step over Prim/PyList.v and Model/AssembleIter.v).  Correspondence: H-stream
 (tools/props/stream_common.py): the extracted loops, given the real parser's per-line outcomes, against the six real
-front-ends.  Oracle: Spec/AssembleSpec.v spec_deliveries (extracted) on the harness's own description of the lines."""
+front-ends.  Oracle: Spec/AssembleSpec.v spec_deliveries (extracted) on the harness's own description of the lines.
+Backpressure extension: wherever NMEAQueue is a front-end the same lines also go into a bounded NMEAQueue(maxsize=k) with
+non-blocking puts (stream_common.py, "bounded NMEAQueue"): correspondence with the extracted queue_step_b, oracle from
+Proofs/AssembleBounded.v (what comes out is what the unbounded reference delivers at the accepted lines)."""
 import os
 import sys
 
